@@ -416,17 +416,7 @@ impl Scratch {
     fn new() -> Result<Scratch, String> {
         let root = std::env::temp_dir().join(format!("wgsl-sim-c18-{}", std::process::id()));
         let _ = std::fs::remove_dir_all(&root);
-        for d in ["empty", "decoy", "deep/a/b/c/d", "bin", "tmp"] {
-            std::fs::create_dir_all(root.join(d)).map_err(|e| format!("scratch: {e}"))?;
-        }
-        std::fs::write(
-            root.join("decoy/rustfmt.toml"),
-            "max_width = 30\nhard_tabs = true\nnewline_style = \"Windows\"\n",
-        )
-        .map_err(|e| e.to_string())?;
-        std::fs::write(root.join("decoy/.rustfmt.toml"), "max_width = 30\n").map_err(|e| e.to_string())?;
-        std::fs::write(root.join("decoy/shader.wgsl"), "this is not the shader you are looking for")
-            .map_err(|e| e.to_string())?;
+        std::fs::create_dir_all(root.join("bin")).map_err(|e| format!("scratch: {e}"))?;
         // A lying `rustfmt` first on some PATHs: only reachable by code that bypasses the seam.
         let fake = root.join("bin/rustfmt");
         std::fs::write(&fake, "#!/bin/sh\ncat >/dev/null\necho '// formatted by the decoy'\n")
@@ -439,17 +429,56 @@ impl Scratch {
         Ok(Scratch { root })
     }
 
-    fn cwd(&self, kind: u8) -> PathBuf {
-        match kind {
-            0 => self.root.join("empty"),
-            1 => self.root.join("decoy"),
-            2 => PathBuf::from("/"),
-            _ => self.root.join("deep/a/b/c/d"),
+    /// A private world for one run (or one pristine process): every directory the environment
+    /// of its processes can point to. Whatever appears in it during the calls was left behind by
+    /// them.
+    fn sandbox(&self) -> Result<Sandbox, String> {
+        static COUNTER: AtomicU64 = AtomicU64::new(0);
+        let root = self
+            .root
+            .join(format!("run-{}", COUNTER.fetch_add(1, Ordering::Relaxed)));
+        for d in ["tmp", "home", "out", "manifest", "cwd-empty", "cwd-decoy", "cwd-deep/a/b/c/d"] {
+            std::fs::create_dir_all(root.join(d)).map_err(|e| format!("sandbox: {e}"))?;
         }
+        std::fs::write(
+            root.join("cwd-decoy/rustfmt.toml"),
+            "max_width = 30\nhard_tabs = true\nnewline_style = \"Windows\"\n",
+        )
+        .map_err(|e| e.to_string())?;
+        std::fs::write(root.join("cwd-decoy/.rustfmt.toml"), "max_width = 30\n").map_err(|e| e.to_string())?;
+        std::fs::write(
+            root.join("cwd-decoy/shader.wgsl"),
+            "this is not the shader you are looking for",
+        )
+        .map_err(|e| e.to_string())?;
+        Ok(Sandbox { root })
     }
 
-    fn expand(&self, value: &str) -> String {
-        value.replace("$SCRATCH", &self.root.to_string_lossy())
+    fn expand(&self, sandbox: &Sandbox, value: &str) -> String {
+        value
+            .replace("$SCRATCH", &self.root.to_string_lossy())
+            .replace("$RUN", &sandbox.root.to_string_lossy())
+    }
+}
+
+struct Sandbox {
+    root: PathBuf,
+}
+
+impl Sandbox {
+    fn cwd(&self, kind: u8) -> PathBuf {
+        match kind {
+            0 => self.root.join("cwd-empty"),
+            1 => self.root.join("cwd-decoy"),
+            2 => PathBuf::from("/"),
+            _ => self.root.join("cwd-deep/a/b/c/d"),
+        }
+    }
+}
+
+impl Drop for Sandbox {
+    fn drop(&mut self) {
+        let _ = std::fs::remove_dir_all(&self.root);
     }
 }
 
@@ -467,23 +496,22 @@ pub fn canonical_env() -> Vec<(String, String)> {
     ]
 }
 
-fn spawn_worker(scratch: &Scratch, input: &WorkerInput) -> Result<WorkerOutput, String> {
+fn spawn_worker(scratch: &Scratch, sandbox: &Sandbox, input: &WorkerInput) -> Result<WorkerOutput, String> {
     let exe = std::env::current_exe().map_err(|e| e.to_string())?;
     let mut cmd = std::process::Command::new(exe);
     cmd.arg("c18-proc")
         .env_clear()
-        .current_dir(scratch.cwd(input.process.cwd_kind))
+        .current_dir(sandbox.cwd(input.process.cwd_kind))
         .stdin(std::process::Stdio::piped())
         .stdout(std::process::Stdio::piped())
         .stderr(std::process::Stdio::piped());
-    if let Some(tmp) = &input.tmp_dir {
-        cmd.env("TMPDIR", tmp);
-    }
+    cmd.env("TMPDIR", sandbox.root.join("tmp"));
+    cmd.env("XDG_CACHE_HOME", sandbox.root.join("home/.cache"));
     for (k, v) in &input.process.env {
-        if k == "TMPDIR" && input.tmp_dir.is_some() {
+        if k == "TMPDIR" {
             continue;
         }
-        cmd.env(k, scratch.expand(v));
+        cmd.env(k, scratch.expand(sandbox, v));
     }
     // the worker must find the repository's shader files whatever its environment is
     cmd.env("VERIF_REPO", corpus::repo_root());
@@ -538,23 +566,17 @@ fn golden_for(scratch: &Scratch, golden: &Golden, job: &Job) -> Result<Outcome, 
     if let Some(o) = golden.lock().unwrap().get(job) {
         return Ok(o.clone());
     }
-    // a pristine process starts with an empty temp dir of its own
-    static GOLDEN_COUNTER: AtomicU64 = AtomicU64::new(0);
-    let tmp = scratch
-        .root
-        .join(format!("golden-tmp-{}", GOLDEN_COUNTER.fetch_add(1, Ordering::Relaxed)));
-    let _ = std::fs::create_dir_all(&tmp);
+    // a pristine process starts in a fresh sandbox of its own
+    let sandbox = scratch.sandbox()?;
     let input = WorkerInput {
         pool: vec![job.clone()],
         golden: vec![0],
         process: pristine_process(1),
         record_log: false,
         return_all_outcomes: true,
-        tmp_dir: Some(tmp.to_string_lossy().into_owned()),
+        tmp_dir: Some(sandbox.root.to_string_lossy().into_owned()),
     };
-    let out = spawn_worker(scratch, &input);
-    let _ = std::fs::remove_dir_all(&tmp);
-    let out = out?;
+    let out = spawn_worker(scratch, &sandbox, &input)?;
     let outcome = out
         .results
         .first()
@@ -583,9 +605,9 @@ fn option_menu() -> Vec<Opts> {
 const ENV_MENU: &[(&str, &[&str])] = &[
     ("RUST_BACKTRACE", &["1", "full", "0"]),
     ("RUST_LOG", &["trace", "naga=debug"]),
-    ("CARGO_MANIFEST_DIR", &["$SCRATCH/deep", "/nonexistent/project"]),
-    ("OUT_DIR", &["$SCRATCH/tmp", "/nonexistent/out"]),
-    ("HOME", &["$SCRATCH/decoy", "/root"]),
+    ("CARGO_MANIFEST_DIR", &["$RUN/manifest", "/nonexistent/project"]),
+    ("OUT_DIR", &["$RUN/out", "/nonexistent/out"]),
+    ("HOME", &["$RUN/home", "$RUN/cwd-decoy"]),
     ("LANG", &["de_DE.UTF-8", "tr_TR.UTF-8"]),
     ("LC_ALL", &["tr_TR.UTF-8", "C"]),
     ("TZ", &["Pacific/Kiritimati", "America/St_Johns"]),
@@ -830,19 +852,8 @@ fn execute(scratch: &Scratch, golden: &Golden, plan: &RunPlan, record: bool) -> 
     let mut hasher = Hasher::default();
     let mut logs = Vec::new();
     let mut jobs_seen_in_processes: Vec<HashSet<usize>> = Vec::new();
-    // One temp dir per run, shared by the run's processes (what one leaves behind, the next finds).
-    static RUN_COUNTER: AtomicU64 = AtomicU64::new(0);
-    let run_tmp = scratch
-        .root
-        .join(format!("run-tmp-{}", RUN_COUNTER.fetch_add(1, Ordering::Relaxed)));
-    let _ = std::fs::create_dir_all(&run_tmp);
-    struct RemoveDir(PathBuf);
-    impl Drop for RemoveDir {
-        fn drop(&mut self) {
-            let _ = std::fs::remove_dir_all(&self.0);
-        }
-    }
-    let _cleanup = RemoveDir(run_tmp.clone());
+    // One sandbox per run, shared by the run's processes (what one leaves behind, the next finds).
+    let sandbox = scratch.sandbox()?;
     // Simulated processes run one after the other: the only state they can share is the file
     // system, and leftovers of an earlier process are part of the later one's history.
     for (pi, process) in plan.processes.iter().enumerate() {
@@ -852,9 +863,9 @@ fn execute(scratch: &Scratch, golden: &Golden, plan: &RunPlan, record: bool) -> 
             process: process.clone(),
             record_log: record,
             return_all_outcomes: false,
-            tmp_dir: Some(run_tmp.to_string_lossy().into_owned()),
+            tmp_dir: Some(sandbox.root.to_string_lossy().into_owned()),
         };
-        let out = spawn_worker(scratch, &input)?;
+        let out = spawn_worker(scratch, &sandbox, &input)?;
         if let Some(abort) = &out.abort {
             return Err(format!("process {pi}: {abort}"));
         }
@@ -959,9 +970,13 @@ fn execute(scratch: &Scratch, golden: &Golden, plan: &RunPlan, record: bool) -> 
         }
         if !out.new_files_in_tmp.is_empty() {
             divergences.push(Divergence {
-                class: "state_modified:files_in_temp_dir".into(),
+                class: if out.new_files_in_tmp.iter().all(|f| f.starts_with("tmp/")) {
+                    "state_modified:files_in_temp_dir".into()
+                } else {
+                    "state_modified:files_left_behind".into()
+                },
                 process: pi,
-                detail: format!("files left behind in the temp dir: {:?}", out.new_files_in_tmp.iter().take(6).collect::<Vec<_>>()),
+                detail: format!("files left behind (temp dir, home, OUT_DIR, manifest dir, working directories of the run): {:?}", out.new_files_in_tmp.iter().take(6).collect::<Vec<_>>()),
                 job: None,
                 expected: None,
                 actual: None,
